@@ -2,6 +2,7 @@ package main
 
 import (
 	"fmt"
+	"os"
 	"reflect"
 	"sort"
 	"strings"
@@ -196,9 +197,51 @@ func c04Run(w *verifrt.World, tier Tier) *RunResult {
 	return res
 }
 
+// c04Age makes the process look like a server that has been up for a while:
+// several large configurations with many different transformation chains,
+// selectors and patterns were loaded, used once and dropped.
+func c04Age() int {
+	ok := 0
+	// transformation names the scenario generator does not use: the process has
+	// seen several hundred chains, none of which a later scenario asks for
+	names := []string{"hexDecode", "base64Decode", "md5", "cmdLine", "jsDecode", "cssDecode", "htmlEntityDecode", "normalisePath", "replaceComments",
+		"utf8toUnicode", "urlEncode", "escapeSeqDecode", "normalisePathWin", "removeComments", "replaceNulls", "removeCommentsChar", "trimLeft", "trimRight", "base64DecodeExt", "urlDecodeUni"}
+	for g := 0; g < 3; g++ {
+		var sb strings.Builder
+		sb.WriteString("SecRuleEngine On\n")
+		id := 1000
+		for i, a := range names {
+			for j, b := range names {
+				if (i+j)%3 != g {
+					continue
+				}
+				fmt.Fprintf(&sb, "SecRule ARGS|REQUEST_HEADERS:/^x-%d/ \"@rx ^aged%d-%d\" \"id:%d,phase:1,pass,nolog,t:%s,t:%s\"\n", id%17, g, id, id, a, b)
+				id++
+			}
+		}
+		h, err := buildWAF(sb.String())
+		if err != nil {
+			fmt.Fprintf(os.Stderr, "WARNING: ageing configuration %d rejected: %v\n", g, err)
+			continue
+		}
+		safely(func() {
+			tx := h.WAF.NewTransaction()
+			tx.ProcessURI("/aged?a=1&b=2", "GET", "HTTP/1.1")
+			tx.AddRequestHeader("X-3", "v")
+			tx.ProcessRequestHeaders()
+			tx.ProcessLogging()
+			tx.Close()
+		})
+		h.Close()
+		ok++
+	}
+	return ok
+}
+
 func init() {
 	register(&Check{
-		ID: "C04", Level: "exploration", Run: c04Run, HistoryProbe: true,
+		Age: c04Age,
+		ID:  "C04", Level: "exploration", Run: c04Run, HistoryProbe: true, AgedWorker: true,
 		Runs:       [2]int{12000, 200000},
 		MaxSeconds: [2]int{90, 1500},
 		Rule: "one run = one generated (configuration of 1-6 rules incl. chains, exclusions, regex keys, counts, transformations, setvar counters, flow actions; request with repeated / mixed-case names in query, cookies, headers, urlencoded / multipart / JSON body, optional SecArgumentsLimit) " +
